@@ -461,6 +461,18 @@ class Ctx:
             self.obligation("theorem %s [assumptions: %s]" % (t, a.replace("\n", " ")), res["ok"], "")
             if a not in ("closed",) and a != "not printed":
                 self.assumptions.append("theorem %s depends on: %s" % (t, a.replace("\n", " ")))
+        if res["ok"] and self.thorough() and os.environ.get("VERIF_NO_COQCHK") != "1":
+            # independent re-check of the compiled property file and everything it depends on
+            rc, out = sh(["timeout", "2400", "coqchk", "-silent", "-o", "-R", ".", "Falco", "Falco.Props." + pid],
+                         cwd=COQ, timeout=2500)
+            m = re.search(r"\* Axioms:(.*?)\n\s*\n", out, re.S)
+            ax = " ".join((m.group(1) if m else "?").split())
+            self.obligation("coqchk -silent -o Falco.Props.%s [axioms: %s]" % (pid, ax), rc == 0, out[-300:] if rc else "")
+            if ax not in ("<none>",):
+                self.assumptions.append("coqchk lists axioms for Props.%s: %s" % (pid, ax))
+            if rc != 0:
+                self.broken = "coqchk failed for Props." + pid
+                return False
         return res["ok"]
 
     def finish(self, level="proof", rule="", extra_cov=None):
